@@ -64,4 +64,20 @@ PROPS = {
         "technique": "Lean 4 proof (decision logic stated outright; induction over package/declaration lists and over the injection fold) + differential correspondence against the mockery CLI with a probe template",
         "timeout": 3600,
     },
+    "C11": {
+        "needs": [],
+        "extract": True,
+        "harness": "H-config: Config.ParseTemplates in-process vs Mockery.Config.resolve ∘ bind with the Lean template evaluator; oracle: the real text/template iterated over the documented bindings",
+        "rule": "the five templated parameters drawn (alone and concatenated) from ~45 expressions over all documented variables and library functions incl. pipelines, nested quoted templates that need 2-4 rounds, self-growing values, parse and execution errors, trim markers; interface present/absent, exported/unexported/non-ASCII names, interface files below, beside and outside the working directory, config file path given / empty / relative / elsewhere; a case is non-trivial iff distinct and resolution needed at least two rounds or failed",
+        "trusted": COMMON_TRUST + [
+            "regenerated: Generated/ResolveFacts.lean (iteration cap, loop shape, templated-parameter map, variable bindings of ParseTemplates) by harness/verifx (go/ast) on every run",
+            "text/template is outside the loop theorems (they hold for every rendering function); the Lean evaluator (Tmpl/Lang.lean) covers text, fields, literals, calls, pipelines and trim markers and answers `unmodelled` for everything else",
+            "pathlib/filepath path algebra as transcribed in Tmpl/Path.lean and Config/Resolve.lean",
+            "ast.IsExported of the interface name is an input computed by the harness",
+        ],
+        "assumptions": ["the working directory of the run does not change while ParseTemplates executes"],
+        "level_text": "For every rendering function: the loop runs at most 20 rounds, a successful result is a fixpoint, values stabilising in k<20 rounds are returned fully rendered, values that keep changing end in the infinite-loop error (never a truncated value), a round is independent of the order in which parameters are visited; decide-checked facts regenerated from ParseTemplates (cap, loop shape, the five parameters, the ten bindings); binding theorems for the data model. Tied to the real ParseTemplates by an in-process differential run; independent oracle over real text/template.",
+        "level_note": "Partial: InterfaceDirRelative is bound relative to the working directory, not ConfigDir (known finding C11-K1; theorem interfaceDirRelative_partial + witness). Config-file discovery and the CLI layouts are exercised under C09/C10 runs, not modelled here. text/template beyond the evaluator's fragment is unmodelled.",
+        "technique": "Lean 4 proof (induction on the fuel of the capped loop, for an arbitrary rendering function; decide over facts regenerated from ParseTemplates) + differential correspondence against Config.ParseTemplates",
+    },
 }
